@@ -482,6 +482,10 @@ func getVerticalTileIdOnAltitude(alt float64, vZoom int64) string {
 
 	// 垂直方向の位置を計算する
 	vIndex := math.Floor(alt / altResolution)
+	if alt < 0 && vIndex == 0 {
+		// 絶対値が極めて小さい負の高さは除算がアンダーフローして -0 になるが、床関数としては -1 が正しい
+		vIndex = -1
+	}
 
 	// 垂直精度、高さ方向のインデクスをスライスに格納
 	idParams := []string{
